@@ -3,6 +3,7 @@
 Format (line oriented; a section runs until the next line starting with '@'):
 
   @unit NAME                      unit description in /verif/units/NAME.json
+  @use PATH                       import preludes/contracts/loop contracts of another spec file
   @prelude0                       C placed before the generated types (capacities, macros)
   @prelude                        C placed after the types: ghost state, spec functions
   @contract CNAME                 contract clauses spliced between declarator and body
@@ -58,6 +59,17 @@ class Spec:
                 parts = shlex.split(line[1:])
                 if not parts: continue
                 if parts[0] == 'unit': self.unit = parts[1]
+                elif parts[0] == 'use':
+                    # import preludes, contracts and loop contracts (not groups, not the unit) of another spec
+                    import os
+                    other = Spec(os.path.join(os.path.dirname(self.path), parts[1]))
+                    self.prelude0 += other.prelude0; self.prelude += other.prelude
+                    self.imported = getattr(self, 'imported', set())
+                    for k, v in other.contracts.items():
+                        if k not in self.contracts: self.contracts[k] = v; self.imported.add(k)
+                    for k, v in other.loops.items():
+                        if k not in self.loops: self.loops[k] = v; self.imported.add(('L',) + k)
+                    self.uses = getattr(self, 'uses', []) + [other.path]
                 elif parts[0] == 'end': pass
                 elif parts[0] in ('prelude0', 'prelude', 'contract', 'loop', 'group'):
                     cur = parts
@@ -89,10 +101,13 @@ def splice(ctext, spec, group, fninfo):
     out = out.replace('/*@HARNESS@*/', '#define HARNESS harness_%s\n#ifndef VACUITY_POINT\n#define VACUITY_POINT __CPROVER_assert(0, "vacuity probe: harness end reachable")\n#endif\n%s\n' % (group.name, group.body))
     # every contract / loop contract must have found its function (renamed function => undecided, not pass)
     missing = []
+    imported = getattr(spec, 'imported', set())
     for n in spec.contracts:
+        if n in imported: continue
         if ('c', n) not in used and '/*@CONTRACT:%s@*/' % n not in ctext:
             missing.append('contract for unknown function %s' % n)
     for (n, i) in spec.loops:
+        if ('L', n, i) in imported: continue
         if '/*@LOOP:%s:%d@*/' % (n, i) not in ctext:
             missing.append('loop contract for unknown loop %s #%d' % (n, i))
     return out, missing
